@@ -192,8 +192,15 @@ Proof.
     destruct Hf as (Hr & _). rewrite Hr.
     destruct (column 0 (m_get_policy (e_model s2) s_p s_p)) as [c0|]; [|reflexivity].
     destruct (column 1 (m_get_policy (e_model s2) s_g s_g)) as [c1|]; [|reflexivity].
-    do 2 f_equal. apply filter_ext. intros u.
-    rewrite (enforce_equiv ptab s1 s2 _ He). reflexivity.
+    rewrite (existsb_ext_pt
+               (fun u => match enforce ptab s1 (map VStr (u :: perm)) with Panic => true | _ => false end)
+               (fun u => match enforce ptab s2 (map VStr (u :: perm)) with Panic => true | _ => false end))
+      by (intros u; cbv beta; rewrite (enforce_equiv ptab s1 s2 _ He); reflexivity).
+    rewrite (filter_ext
+               (fun u => match enforce ptab s1 (map VStr (u :: perm)) with Ok true => true | _ => false end)
+               (fun u => match enforce ptab s2 (map VStr (u :: perm)) with Ok true => true | _ => false end))
+      by (intros u; cbv beta; rewrite (enforce_equiv ptab s1 s2 _ He); reflexivity).
+    reflexivity.
   - rewrite Had. reflexivity.
   - destruct Hf as (Hr & Hmx & _). rewrite Hr, Hmx. reflexivity.
 Qed.
@@ -1500,8 +1507,15 @@ Section OnP.
     - unfold implicit_users. cbn [s2' e_model e_fs f_rm].
       destruct (m_values (e_model s2) s_p s_p 0) as [c0|]; [|reflexivity].
       destruct (m_values (e_model s2) s_g s_g 1) as [c1|]; [|reflexivity].
-      do 2 f_equal. apply filter_ext. intros u.
-      rewrite (enforce_equiv_on s2' s2 _ He2 Hmi). reflexivity.
+      rewrite (existsb_ext_pt
+                 (fun u => match enforce ptab s2' (map VStr (u :: perm)) with Panic => true | _ => false end)
+                 (fun u => match enforce ptab s2 (map VStr (u :: perm)) with Panic => true | _ => false end))
+        by (intros u; cbv beta; rewrite (enforce_equiv_on s2' s2 _ He2 Hmi); reflexivity).
+      rewrite (filter_ext
+                 (fun u => match enforce ptab s2' (map VStr (u :: perm)) with Ok true => true | _ => false end)
+                 (fun u => match enforce ptab s2 (map VStr (u :: perm)) with Ok true => true | _ => false end))
+        by (intros u; cbv beta; rewrite (enforce_equiv_on s2' s2 _ He2 Hmi); reflexivity).
+      reflexivity.
   Qed.
 
   Theorem st_equiv_on_obs_eq : forall s1 s2, st_equiv_on P s1 s2 -> matchers_in s2 ->
